@@ -106,6 +106,7 @@ Judged == Mode = "product" /\ phase = "case"
 
 InvContained == Judged => Contained(m, T, O)
 InvTraversal == Judged => TraversalIsNotFound(m, q, cur, O)
+InvPhysical == Judged => PhysicalPathIsTranslated(m, T, q, O)
 InvFirstRoot == Judged => FirstRootWins(m, T, q, cur, O)
 InvDeepest == Judged => DeepestPrefixWins(m, T, q, cur, O)
 InvReference == Judged => ResolvesToReference(m, T, q, cur, O)
